@@ -2,7 +2,7 @@
 chaining (lang/visitor.py, _utils.map_and_filter)."""
 import ast
 
-from .. import nodeshape, shapes
+from .. import boolx, nodeshape, shapes
 from ..model import AnalysisError, own_nodes, norm_stmt
 
 VIS = "py_gql.lang.visitor"
@@ -173,6 +173,21 @@ def check(prog, run):
                                % (h, cname, slot))
             for slot, line, back, n in got:
                 if slot in want:
+                    # the traversal may depend only on the node's class and on that slot being present
+                    for cond in _enclosing_conditions(m, n):
+                        for atom in boolx.atoms(cond):
+                            a = atom
+                            if a.isidentifier():
+                                binds = [x.value for x in own_nodes(m.node) if isinstance(x, ast.Assign) and len(x.targets) == 1
+                                         and isinstance(x.targets[0], ast.Name) and x.targets[0].id == a]
+                                if len(binds) == 1:
+                                    a = " ".join(ast.unparse(binds[0]).split())
+                            ok = ("isinstance(%s" % param) in a or ("%s.__class__" % param) in a or ("type(%s)" % param) in a \
+                                or (("%s.%s" % (param, slot)) in a and a.count("%s." % param) == a.count("%s.%s" % (param, slot)))
+                            if not ok:
+                                run.report(r, "%s:ASTVisitor.%s:conditional-traversal(%s.%s)" % (VIS, h, cname, slot), m.where(n),
+                                           "%s visits %s.%s only when `%s`, a condition that is not about that slot: for the other nodes "
+                                           "the children under %s.%s get no enter/leave and cannot be edited" % (h, cname, slot, a, cname, slot))
                     r.instance("%s: %s.%s written back" % (h, cname, slot))
                     if not back:
                         run.report(r, "%s:ASTVisitor.%s:result-discarded(%s.%s)" % (VIS, h, cname, slot), m.where(n),
@@ -332,3 +347,15 @@ def check(prog, run):
 def _is_reversed(it):
     t = ast.unparse(it)
     return t.endswith("[::-1]") or t.startswith("reversed(")
+
+
+def _enclosing_conditions(m, node):
+    """Tests of the if/ternary statements the node is nested in (negated for else-branches is irrelevant here)."""
+    out = []
+    cur = node
+    while getattr(cur, "_parent", None) is not None and cur is not m.node:
+        par = cur._parent
+        if isinstance(par, (ast.If, ast.IfExp)) and cur is not par.test:
+            out.append(par.test)
+        cur = par
+    return out
